@@ -230,6 +230,7 @@ func (s *netSender) Prepare(ctx context.Context, recipient *core.Endpoint, accou
 		return s.c.deliver(to, "Prepare", func() error { _, err := to.RecvH.Prepare(callerCtx(ctx, s.from.Name), req); return err })
 	}
 	err := call()
+	s.c.Log.Emit(Ev{"ev": "MsgDone", "type": "prepare", "from": s.from.ID, "to": to.ID, "account": account, "ok": err == nil})
 	if kind == "dup" {
 		_ = call()
 	}
@@ -255,6 +256,7 @@ func (s *netSender) Execute(ctx context.Context, recipient *core.Endpoint, accou
 		return s.c.deliver(to, "Execute", func() error { _, err := to.RecvH.Execute(callerCtx(ctx, s.from.Name), req); return err })
 	}
 	err := call()
+	s.c.Log.Emit(Ev{"ev": "MsgDone", "type": "execute", "from": s.from.ID, "to": to.ID, "account": account, "ok": err == nil})
 	if kind == "dup" {
 		_ = call()
 	}
@@ -293,6 +295,7 @@ func (s *netSender) Commit(ctx context.Context, recipient *core.Endpoint, accoun
 		res, e = to.RecvH.Commit(callerCtx(ctx, s.from.Name), req)
 		return e
 	})
+	s.c.Log.Emit(Ev{"ev": "MsgDone", "type": "commit", "from": s.from.ID, "to": to.ID, "account": account, "ok": err == nil})
 	s.waitCommitTurn(to.ID)
 	if err != nil {
 		return nil, nil, err
@@ -453,6 +456,7 @@ func (s *netSender) SendContribution(ctx context.Context, recipient *core.Endpoi
 		})
 	}
 	err := call()
+	s.c.Log.Emit(Ev{"ev": "MsgDone", "type": "contribute", "from": s.from.ID, "to": to.ID, "account": account, "ok": err == nil})
 	if kind == "dup" && err == nil {
 		_ = call()
 	}
